@@ -157,8 +157,6 @@ pub struct Execution {
     /// probe id → observations (only probes reached in some run)
     pub observed: BTreeMap<u32, Observed>,
     pub loop_stats: HashMap<usize, ff::LoopStat>,
-    /// assignment site → bit mask of runtime types assigned there over all runs
-    pub site_types: HashMap<usize, u8>,
     pub runs: u32,
     pub diverged_runs: u32,
 }
@@ -209,7 +207,7 @@ pub fn execute(prog: &Prog, vm: &mut Vm, obs: &mut Obs) -> Result<Execution, Str
             o.types.entry((e.val.ty, e.val.truthy)).or_insert(e.val.origin);
         }
     }
-    Ok(Execution { norm, text: r.text, ids: r.probe_ids, site_lines: r.site_lines, n_probes: r.n_probes, observed, loop_stats, site_types, runs, diverged_runs })
+    Ok(Execution { norm, text: r.text, ids: r.probe_ids, site_lines: r.site_lines, n_probes: r.n_probes, observed, loop_stats, runs, diverged_runs })
 }
 
 /// A probe whose inferred type does not admit an observed runtime type.
